@@ -88,6 +88,9 @@ impl Kt for DbVu64 {
         db.db_map_vu64_with_params(name, p)
     }
     fn make_key(rng: &mut Rng, _want_len: usize) -> Vec<u8> {
+        // (canonical codes only: the key type compares decoded numbers, so raw byte strings that are not exactly one
+        // complete code are outside its domain - a truncated code panics in `cmp`, bytes behind a code are ignored by
+        // `cmp` but not by the hash; the golden images hold a few such records, read back by their exact bytes)
         vu_encode(int_sample(rng))
     }
 }
